@@ -123,7 +123,7 @@ def run(tier, replay=None):
     if tier == "thorough":
         texe = vlib.build_harness("c17_pool", "tsan")
         rc3, out3 = vlib.sh([texe, "quick", "300"], timeout=3000,
-                            env={"VERIF_SEED": str(r.seed + 1), "TSAN_OPTIONS": "halt_on_error=1 second_deadlock_stack=1"})
+                            env={"VERIF_SEED": str(r.seed + 1), "TSAN_OPTIONS": "halt_on_error=1 second_deadlock_stack=1 suppressions=%s" % os.path.join(vlib.ROOT, "harness", "tsan.supp")})
         tsan, _ = analyse(r, texe, out3, rc3, "tsan", drv)
     vlib.handle_coq_failure(r, cres)
     vlib.proof_coverage(r, cres, "make -C coq theories/Properties_C17.vo && coqc theories/Properties_C17.v (Print Assumptions)",
